@@ -151,6 +151,35 @@ theorem cherrypick_get? (src : J) (k : String) : ∀ (fs : List (List String)) (
             exact cherrypick_get? src hh fs d1 d' h ho1 (ensure_get?_same hr hd he')
           · exact cherrypick_get? src k fs d1 d' h ho1 ((ensure_get?_other he' hk).trans hd)
 
+/-- the guarded restoring loop (kopf 571b1b2): the same, a skipped field changes nothing. -/
+theorem cherrypickSkip_get? (src : J) (k : String) : ∀ (fs : List (List String)) (d d' : J),
+    cherrypickSkip src d fs = .ok d' → d.isObj = true → d.get? k = src.get? k →
+    d'.get? k = src.get? k ∧ d'.isObj = true
+  | [], d, d', h, ho, hd => by simp [cherrypickSkip] at h; subst h; exact ⟨hd, ho⟩
+  | f :: fs, d, d', h, ho, hd => by
+    simp only [cherrypickSkip] at h
+    cases hc : cherrypick src d [f] with
+    | ok d1 =>
+      rw [hc] at h; simp only [] at h
+      have ⟨g1, o1⟩ := cherrypick_get? src k [f] d d1 hc ho hd
+      exact cherrypickSkip_get? src k fs d1 d' h o1 g1
+    | error e =>
+      rw [hc] at h
+      cases e <;> simp only [] at h <;> first | exact cherrypickSkip_get? src k fs d d' h ho hd | cases h
+
+theorem avoidKey_one {k hd : String} {f : List String} (h1 : f.head? = some hd) (n1 : hd ≠ k) : AvoidKey k [f] := by
+  intro g hg
+  have : g = f := by simpa using hg
+  subst this; exact ⟨hd, h1, n1⟩
+
+theorem avoidKey_two {k hf ht : String} {f t : List String} (h1 : f.head? = some hf) (h2 : t.head? = some ht)
+    (n1 : hf ≠ k) (n2 : ht ≠ k) : AvoidKey k [f, t] := by
+  intro g hg
+  have : g = f ∨ g = t := by simpa using hg
+  rcases this with rfl | rfl
+  · exact ⟨hf, h1, n1⟩
+  · exact ⟨ht, h2, n2⟩
+
 /-! ### the cleaning steps only touch `metadata` and `status` -/
 
 theorem metaSet_get? (e : J) (name : String) (v : J) {k : String} (hk : k ≠ "metadata") :
@@ -273,7 +302,7 @@ theorem baseBuild_get? {ig extra : List (List String)} {kvs : Kvs} {e : J} {k : 
     have ⟨g1, o1⟩ := cherrypick_get? (.obj kvs) k _ _ _ h1 rfl (by simp [get?, erase4_get? kvs hk])
     split at h
     · cases h
-    · cases h3 : cherrypick (.obj kvs) (stage2 e1) extra with
+    · cases h3 : cherrypickSkip (.obj kvs) (stage2 e1) extra with
       | error er => rw [h3] at h; cases h
       | ok e3 =>
         rw [h3] at h
@@ -289,22 +318,10 @@ theorem baseBuild_get? {ig extra : List (List String)} {kvs : Kvs} {e : J} {k : 
             cases e1 <;> simp [isObj] at o1
             simp only [metaSet]
             split <;> rfl
-        have ⟨g3, _⟩ := cherrypick_get? (.obj kvs) k _ _ _ h3 hfo hf
+        have ⟨g3, _⟩ := cherrypickSkip_get? (.obj kvs) k _ _ _ h3 hfo hf
         split at h
         · cases h
         · rw [ignoreFields_get? k ig _ e hig h, removeEmptyStanzas_get? _ hk.2.2.1 hk.2.2.2, g3]; rfl
-
-theorem remove2_ok {e e' : J} {f t : List String} (h : remove2 e f t = .ok e') :
-    ∃ e1, remove e f = .ok e1 ∧ remove e1 t = .ok e' := by
-  simp only [remove2] at h
-  cases h1 : remove e f with
-  | error er => rw [h1] at h; cases h
-  | ok e1 => rw [h1] at h; exact ⟨e1, rfl, h⟩
-
-theorem remove2_get? {e e' : J} {f t : List String} {hf ht k : String} (h1 : f.head? = some hf) (h2 : t.head? = some ht)
-    (n1 : hf ≠ k) (n2 : ht ≠ k) (h : remove2 e f t = .ok e') : e'.get? k = e.get? k := by
-  obtain ⟨e1, r1, r2⟩ := remove2_ok h
-  rw [remove_get? t e1 e' ht k h2 n2 r2, remove_get? f e e1 hf k h1 n1 r1]
 
 theorem baseBuild_obj {ig extra : List (List String)} {b e : J} (h : baseBuild ig extra b = .ok e) :
     ∃ kvs, b = .obj kvs := by
@@ -345,7 +362,7 @@ theorem leafBuild_get? {hs : Hashes} {extra : List (List String)} {b e : J} {k :
     obtain ⟨kvs, rfl⟩ := baseBuild_obj h1
     have g1 := baseBuild_get? hk (fun g hg => hav g (List.mem_cons_of_mem _ hg)) h1
     obtain ⟨hd, hhd, hne⟩ := hav f List.mem_cons_self
-    rw [remove_get? f e1 e hd k hhd hne (liftD_ok h2), g1]; rfl
+    rw [ignoreFields_get? k [f] e1 e (avoidKey_one hhd hne) h2, g1]; rfl
 
 theorem lookup_withKind (orig : J) (l : Kvs) {k : String} (h : k ≠ "kind") : lookup k (withKind orig l) = lookup k l := by
   unfold withKind
@@ -415,7 +432,7 @@ theorem progressClear_get? {k : String} (hk : PayloadKey k) : ∀ (p : ProgressC
     | true =>
       simp [hm, pure, Except.pure] at h2
       subst h2
-      rw [removeEmptyStanzas_get? _ hk.2.2.1 hk.2.2.2, remove2_get? hhd thd hne tne (liftD_ok h0)]
+      rw [removeEmptyStanzas_get? _ hk.2.2.1 hk.2.2.2, ignoreFields_get? k [f, t] e e0 (avoidKey_two hhd thd hne tne) h0]
 
 /-- **every payload stanza of the body is in the essence, unchanged.** -/
 theorem essence_get? {cfg : Cfg} {extra : List (List String)} {kvs : Kvs} {e : J} {k : String}
